@@ -18,7 +18,7 @@ def run(run):
     fams = [("corpus:corpus/C09/stop-between-setconfig-and-boot.jsonl", 0, 0),
             ("corpus:corpus/C09/stale-stop-on-restarted-child.jsonl", 0, 0),
             ("corpus:corpus/C09/error-during-reload.jsonl", 0, 0), ("corpus:corpus/C09/duplicate-name-objects.jsonl", 0, 0),
-            ("f8", 4, run.seed), ("stale", 4, run.seed), ("errwin", 15 if quick else 150, run.seed),
+            ("f8", 4, run.seed), ("stale", 4, run.seed), ("errwin", 15 if quick else 150, run.seed), ("multifail", 20 if quick else 200, run.seed + 5),
             ("c11dup", 8 if quick else 40, run.seed + 3),
             ("c09", 1500 if quick else 20000, run.seed), ("boot", 300 if quick else 3000, run.seed + 1),
             ("c11", 400 if quick else 5000, run.seed + 2)]
